@@ -148,7 +148,16 @@ func protect(f func()) (panicked string) {
 // roundTrip runs JSON write/read, import into a pristine application and re-export for the
 // genesis g exported from ctx (a branch). label names the stage in failure details. Returns
 // the snapshot of the imported store (nil if the import did not happen).
-func (r *Runner) roundTrip(label string, ctx sdk.Context, g *types.GenesisState, mustValidate bool) *Snap {
+// rtResult: what the round trip established. json: written and read back identically (or the
+// read-back failed for the known reason K4); same: imported, re-exported identically, records
+// 0x01-0x08 identical, nothing else created; imp: snapshot of the imported store.
+type rtResult struct {
+	imp  *Snap
+	json bool
+	same bool
+}
+
+func (r *Runner) roundTrip(label string, ctx sdk.Context, g *types.GenesisState, mustValidate bool) (res rtResult) {
 	m := r.mon
 	w := r.w
 	cdc := w.app.AppCodec()
@@ -171,7 +180,7 @@ func (r *Runner) roundTrip(label string, ctx sdk.Context, g *types.GenesisState,
 	var bz []byte
 	if p := protect(func() { bz = cdc.MustMarshalJSON(g) }); p != "" {
 		m.fail("C19", "%s: genesis cannot be written as JSON: %s", label, p)
-		return nil
+		return res
 	}
 	var back types.GenesisState
 	jsonOK := false
@@ -195,8 +204,9 @@ func (r *Runner) roundTrip(label string, ctx sdk.Context, g *types.GenesisState,
 	if jsonOK {
 		m.evals["C19.json-roundtrips"]++
 	}
+	res.json = jsonOK || (k4 && jerr != nil) // the K4 read-back failure is the known finding
 	if verr != nil {
-		return nil
+		return res
 	}
 
 	// import into a pristine application: the genesis as read back from JSON when that worked
@@ -205,22 +215,23 @@ func (r *Runner) roundTrip(label string, ctx sdk.Context, g *types.GenesisState,
 	if jsonOK {
 		src = &back
 	}
+	nviol := len(m.viol)
 	iw := w.importWorld()
 	ictx, _ := iw.base.CacheContext()
 	if n := len(iw.rawRange(ictx, 0x00, 0xff)); n != 0 {
 		m.fail("C19", "%s: harness error, import target not empty (%d keys)", label, n)
-		return nil
+		return res
 	}
 	if p := protect(func() { service.InitGenesis(ictx, iw.k, *src) }); p != "" {
 		m.fail("C19", "%s: InitGenesis of the exported genesis panics: %s", label, p)
-		return nil
+		return res
 	}
 	m.evals["C19.imports"]++
 	var g2 *types.GenesisState
 	var bz3 []byte
 	if p := protect(func() { g2 = service.ExportGenesis(ictx, iw.k); bz3 = iw.app.AppCodec().MustMarshalJSON(g2) }); p != "" {
 		m.fail("C19", "%s: export after import panics: %s", label, p)
-		return nil
+		return res
 	}
 	if !bytes.Equal(bz, bz3) {
 		m.fail("C19", "%s: genesis exported after import differs: %s", label, genesisDiff(g, g2))
@@ -237,7 +248,9 @@ func (r *Runner) roundTrip(label string, ctx sdk.Context, g *types.GenesisState,
 	if rest := iw.rawRange(ictx, 0x00, 0x01); len(rest) != 0 {
 		m.fail("C19", "%s: import created %d records below 0x01", label, len(rest))
 	}
-	return iw.scan(ictx)
+	res.imp = iw.scan(ictx)
+	res.same = len(m.viol) == nviol
+	return res
 }
 
 func sameProto(a, b proto.Message) bool {
@@ -361,9 +374,13 @@ func (r *Runner) exportStep() {
 		if settled {
 			m.evals["C19.plain-settled"]++
 		}
-		r.roundTrip("plain", pctx, g1, settled)
+		rt := r.roundTrip("plain", pctx, g1, settled)
 		r.genLinesOfGenesis("g", g1, add)
 		add("gvalid %d", b2i(types.ValidateGenesis(*g1) == nil))
+		add("gjson %d", b2i(rt.json))
+		if types.ValidateGenesis(*g1) == nil {
+			add("gsame %d", b2i(rt.same)) // a plain export is importable only when it validates
+		}
 	}
 
 	// ---- (ii) zero-height preparation
@@ -481,8 +498,11 @@ func (r *Runner) exportStep() {
 				m.fail("C19", "zero-height: exported %d/%d/%d/%d definitions/bindings/withdraw addresses/contexts, store has %d/%d/%d/%d",
 					len(g3.Definitions), len(g3.Bindings), len(g3.WithdrawAddresses), len(g3.RequestContexts), len(s.Defs), len(s.Binds), len(s.Wd), len(s.Ctxs))
 			}
-			is := r.roundTrip("zero-height", zctx, g3, true)
+			rt := r.roundTrip("zero-height", zctx, g3, true)
+			is := rt.imp
 			add("zvalid %d", b2i(types.ValidateGenesis(*g3) == nil))
+			add("zjson %d", b2i(rt.json))
+			add("zsame %d", b2i(rt.same))
 			// the genesis exported after the preparation: only its contexts differ from the plain one
 			for id, rc := range g3.RequestContexts {
 				add("zg%s", r.ctxRecordLine(hexToBytes(id), *rc))
